@@ -102,13 +102,13 @@ theorem all2_mono {α β} (f g : α → β → Bool) :
       intro a ha b hb; exact h a (by simp [ha]) b (by simp [hb])
 
 theorem idxEq_symm (i j : List Cell) : idxEq i j = idxEq j i :=
-  all2_symm _ _ i j fun x _ y _ => pyEq_symm x y
+  all2_symm _ _ i j fun x _ y _ => cellEq_symm x y
 
 theorem idxEq_trans (i j k : List Cell) : idxEq i j = true → idxEq j k = true → idxEq i k = true :=
-  all2_trans _ i j k fun x _ y _ z _ => pyEq_trans x y z
+  all2_trans _ i j k fun x _ y _ z _ => cellEq_trans x y z
 
-theorem idxEq_refl (i : List Cell) (h : ∀ c ∈ i, c ≠ .nan) : idxEq i i = true :=
-  all2_refl _ i fun c hc => pyEq_refl c (h c hc)
+theorem idxEq_refl (i : List Cell) : idxEq i i = true :=
+  all2_refl _ i fun c _ => cellEq_refl c
 
 end EqM
 
@@ -177,32 +177,31 @@ theorem labelsOkKVs_mem : ∀ {xs : List (String × EVal)}, EVal.labelsOkKVs xs 
 
 /-! ### eqN is an equivalence -/
 
-theorem eqN_refl_aux : ∀ n, ∀ a : EVal, sizeOf a ≤ n → a.labelsOk = true → eqN a a = true := by
+theorem eqN_refl_aux : ∀ n, ∀ a : EVal, sizeOf a ≤ n → eqN a a = true := by
   intro n
   induction n with
   | zero => intro a h; cases a <;> simp at h
   | succ n ih =>
-    intro a h ok
-    have hlist : ∀ xs : List EVal, sizeOf xs ≤ n → EVal.labelsOkList xs = true → eqArr xs xs = true := by
-      intro xs hs okl
+    intro a h
+    have hlist : ∀ xs : List EVal, sizeOf xs ≤ n → eqArr xs xs = true := by
+      intro xs hs
       rw [eqArr_eq_all2]
       apply all2_refl
       intro x hx
       have := List.sizeOf_lt_of_mem hx
-      exact ih x (by omega) (labelsOkList_mem okl x hx)
-    cases a <;> simp only [eqN, EVal.labelsOk, Bool.and_eq_true] at ok ⊢
+      exact ih x (by omega)
+    cases a <;> simp only [eqN, Bool.and_eq_true]
     case cell c => exact cellEq_refl c
     case date d => simp
-    case list xs => simp at h; exact hlist xs (by omega) ok
-    case tuple xs => simp at h; exact hlist xs (by omega) ok
-    case arr s xs => simp at h; exact ⟨by simp, hlist xs (by omega) ok⟩
+    case list xs => simp at h; exact hlist xs (by omega)
+    case tuple xs => simp at h; exact hlist xs (by omega)
+    case arr s xs => simp at h; exact ⟨by simp, hlist xs (by omega)⟩
     case series i xs =>
       simp at h
-      exact ⟨idxEq_refl i (by simpa using ok.1), hlist xs (by omega) ok.2⟩
+      exact ⟨idxEq_refl i, hlist xs (by omega)⟩
     case frame i c xs =>
       simp at h
-      exact ⟨⟨idxEq_refl i (by simpa using ok.1.1), idxEq_refl c (by simpa using ok.1.2)⟩,
-        hlist xs (by omega) ok.2⟩
+      exact ⟨⟨idxEq_refl i, idxEq_refl c⟩, hlist xs (by omega)⟩
     case dict c kvs =>
       simp at h
       refine ⟨⟨by simp, (eqKeys_iff _ _).2 rfl⟩, ?_⟩
@@ -211,10 +210,10 @@ theorem eqN_refl_aux : ∀ n, ∀ a : EVal, sizeOf a ≤ n → a.labelsOk = true
       intro x hx
       obtain ⟨kv, hkv, rfl⟩ := List.mem_map.1 hx
       have := sizeOf_snd_lt' hkv
-      exact ih _ (by omega) (labelsOkKVs_mem ok kv hkv)
+      exact ih _ (by omega)
 
-theorem eqN_refl (a : EVal) (h : a.labelsOk = true) : eqN a a = true :=
-  eqN_refl_aux _ a (Nat.le_refl _) h
+theorem eqN_refl (a : EVal) : eqN a a = true :=
+  eqN_refl_aux _ a (Nat.le_refl _)
 
 theorem eqN_symm_aux : ∀ n, ∀ a b : EVal, sizeOf a ≤ n → eqN a b = eqN b a := by
   intro n
